@@ -59,7 +59,7 @@ func scenarios(c *vlib.Ctx) []*slib.Scn {
 		}
 	}
 	// other task bodies
-	for _, body := range []string{"requeue", "long"} {
+	for _, body := range []string{"requeue", "requeue-wait", "long"} {
 		for _, sq := range seqs(t1, 2) {
 			add("body-"+body, modules.C07Params{Scripts: [][]string{sq}, Tasks: 1, Body: body}, b)
 		}
